@@ -76,11 +76,13 @@ type clientReq struct {
 	ContentLen int64 // -2: len(body); -1 unknown
 	Chunks     [][]byte
 	EndErr     bool // body ends with an error instead of EOF
+	EOFLast    bool // the last data is returned together with io.EOF
 }
 
 type chunkReader struct {
 	chunks [][]byte
 	endErr bool
+	eofLast bool
 	closed bool
 	reads  int
 	afterReturn *bool
@@ -108,6 +110,15 @@ func (c *chunkReader) Read(p []byte) (int, error) {
 	}
 	n := copy(p, c.chunks[0])
 	c.chunks[0] = c.chunks[0][n:]
+	if c.eofLast && !c.endErr {
+		rest := 0
+		for _, ch := range c.chunks {
+			rest += len(ch)
+		}
+		if rest == 0 {
+			return n, io.EOF
+		}
+	}
 	return n, nil
 }
 func (c *chunkReader) Close() error { c.closed = true; return nil }
@@ -211,8 +222,9 @@ func equalStrings(a, b []string) bool {
 // ---- backend script
 
 type action struct {
-	Op   string // readall, read, hadd, hset, status, write, flush, panic, sleepctx
+	Op   string // readall, readseq, read, hadd, hset, status, write, flush, panic
 	N    int
+	Sizes []int
 	Key  string
 	Val  string
 	Data []byte
@@ -299,6 +311,19 @@ func scriptedBackend(obs *backendObs, script []action) http.Handler {
 						break
 					}
 				}
+			case "readseq":
+				for i := 0; i < 200000; i++ {
+					size := 1
+					if len(a.Sizes) > 0 {
+						size = a.Sizes[min(i, len(a.Sizes)-1)]
+					}
+					buf := make([]byte, size)
+					n, err := r.Body.Read(buf)
+					obs.Reads = append(obs.Reads, readResult{Data: buf[:n], Err: errClass(err)})
+					if err != nil {
+						break
+					}
+				}
 			case "read":
 				buf := make([]byte, a.N)
 				n, err := r.Body.Read(buf)
@@ -339,7 +364,7 @@ func buildRequest(req clientReq, late *bool, lateUse *int) (*http.Request, *chun
 	if err != nil {
 		return nil, nil, false
 	}
-	body := &chunkReader{chunks: cloneChunks(req.Chunks), endErr: req.EndErr, afterReturn: late, lateUse: lateUse}
+	body := &chunkReader{chunks: cloneChunks(req.Chunks), endErr: req.EndErr, eofLast: req.EOFLast, afterReturn: late, lateUse: lateUse}
 	hr := &http.Request{
 		Method: req.Method, URL: u, RequestURI: req.Target, Header: http.Header{}, Body: body, Host: "verif.test",
 		Proto: "HTTP/1.1", ProtoMajor: 1, ProtoMinor: 1,
